@@ -3,6 +3,7 @@ package main
 import (
 	"fmt"
 	"math/rand"
+	"strings"
 )
 
 // C11: for subsets of a small name universe chosen for the traps, every (prefix, delimiter,
@@ -14,11 +15,11 @@ var c11Prefixes = []string{"", "a", "a/", "a-", "b", "foo", "foo-", "a/b"}
 var c11Delims = []string{"", "/", "-", "//", "b/", "."}
 
 // chain builds the list requests of one full pagination by running them (tokens come from the server).
-func c11Chains(e *Emu, names []string) ([]Req, []Resp) {
+func c11Chains(e *Emu, names []string, prefixes, delims []string) ([]Req, []Resp) {
 	var prog []Req
 	var obs []Resp
-	for _, p := range c11Prefixes {
-		for _, d := range c11Delims {
+	for _, p := range prefixes {
+		for _, d := range delims {
 			for max := 1; max <= 4; max++ {
 				ms := fmt.Sprint(max)
 				var cursor *string
@@ -39,6 +40,14 @@ func c11Chains(e *Emu, names []string) ([]Req, []Resp) {
 	return prog, obs
 }
 
+func c11LongNames() []string {
+	var ns []string
+	for _, l := range []int{100, 126, 127, 128, 129, 200, 240} {
+		ns = append(ns, "n"+fmt.Sprint(l)+"-"+strings.Repeat("x", l-len(fmt.Sprint(l))-2))
+	}
+	return append(ns, strings.Repeat("D", 130)+"/x", strings.Repeat("D", 130)+"/y", strings.Repeat("E", 127)+"/z", strings.Repeat("F", 200)+"/"+strings.Repeat("g", 200))
+}
+
 func genC11(out, tier string, rng *rand.Rand) {
 	sink := NewSink(out, gcsPrelude, "(list req * list resp)", "check_all", 8)
 	sink.oracle = "oracle_all_c11"
@@ -46,6 +55,7 @@ func genC11(out, tier string, rng *rand.Rand) {
 	type job struct {
 		mk    storeMaker
 		names []string
+		long  bool
 	}
 	var jobs []job
 	subsets := func(universe []string) [][]string {
@@ -75,10 +85,15 @@ func genC11(out, tier string, rng *rand.Rand) {
 		memSubs, fileSubs = pick(memSubs, 24), pick(fileSubs, 24)
 	}
 	for _, ns := range memSubs {
-		jobs = append(jobs, job{stores()[0], ns})
+		jobs = append(jobs, job{stores()[0], ns, false})
 	}
 	for _, ns := range fileSubs {
-		jobs = append(jobs, job{stores()[1], ns})
+		jobs = append(jobs, job{stores()[1], ns, false})
+	}
+	// long names: page tokens carry the last name of a page, whatever its length (the token's length
+	// field grows to two bytes at 128, the file store allows components of up to 247 bytes)
+	for _, mk := range stores() {
+		jobs = append(jobs, job{mk, c11LongNames(), true})
 	}
 	// run jobs in parallel through the generic task runner: the program of a job is produced while running
 	type res struct {
@@ -99,7 +114,11 @@ func genC11(out, tier string, rng *rand.Rand) {
 			prog = append(prog, r)
 			obs = append(obs, e.Exec(r))
 		}
-		p2, o2 := c11Chains(e, j.names)
+		prefixes, delims := c11Prefixes, c11Delims
+		if j.long {
+			prefixes, delims = []string{"", "n", strings.Repeat("D", 130)}, []string{"", "/"}
+		}
+		p2, o2 := c11Chains(e, j.names, prefixes, delims)
 		prog, obs = append(prog, p2...), append(obs, o2...)
 		// error cases of the listing endpoint
 		for _, r := range []Req{{Kind: "list", B: "no-such-bucket"}, {Kind: "list", B: "no-such-bucket", Prefix: "a/"}, {Kind: "list", B: "no-such-bucket", Prefix: "a/b/c", Delim: "/"},
@@ -122,7 +141,7 @@ func genC11(out, tier string, rng *rand.Rand) {
 			sink.AddPre(results[i].c, results[i].text, results[i].js, len(j.names) >= 2)
 		}
 	}
-	sink.Close(fmt.Sprintf("bucket contents = subsets of a 10-name universe per store (memory: %v; file: %v; thorough = all 1023 subsets, quick = the full universe + 24 random subsets per store); for each subset every (prefix in %v) x (delimiter in %q) x maxResults 1..4 is listed by following nextPageToken to the end, plus the 404/400 cases (missing and deleted bucket with and without a prefix that names directories, bad token, bad page size) and a re-creation by upload after the bucket was deleted; distinct = distinct canonical text; non-trivial = at least two names", c11NamesMem, c11NamesFile, c11Prefixes, c11Delims), exhaustive)
+	sink.Close(fmt.Sprintf("bucket contents = subsets of a 10-name universe per store (memory: %v; file: %v; thorough = all 1023 subsets, quick = the full universe + 24 random subsets per store); for each subset every (prefix in %v) x (delimiter in %q) x maxResults 1..4 is listed by following nextPageToken to the end, plus the 404/400 cases (missing and deleted bucket with and without a prefix that names directories, bad token, bad page size) and a re-creation by upload after the bucket was deleted; plus, per store, one bucket of 11 long names (100..240 bytes, directories of 127..200 bytes) paged with sizes 1..4, so that page tokens carry names on both sides of 128 bytes; distinct = distinct canonical text; non-trivial = at least two names", c11NamesMem, c11NamesFile, c11Prefixes, c11Delims), exhaustive)
 }
 
 func strp(s string) *string { return &s }
